@@ -13,12 +13,21 @@ Tie to the code (every run):
   ser    one value as element text and as attribute value of a standalone
          Element, pretty and plain serialiser; the raw slice found by an
          independent tokenizer is decoded by the Coq specification        -> req_*
-  esc    Text objects carrying the escaped flag through both serialisers  -> esc_agrees
+  esc    Text objects carrying the escaped flag, and Raw text, through both
+         serialisers                                                      -> esc_agrees
   refit  attribute values through PrefixNormalizer on standalone trees    -> req_*
-  req    values as operation arguments (element / attribute position) ->
+  req    values as arguments of a document/literal, an rpc/literal and an
+         rpc/encoded operation (element / attribute position) ->
          RequestContext.envelope (4 client configurations) -> slices      -> req_*
+  doc    the same, judged as WHOLE DOCUMENTS in Coq: the Element tree taken at
+         the `marshalled` hook -> model writes the same characters
+         (nsdeclarations, prefixed names, Envelope/Header/Body, Document);
+         characters -> grammar -> decoding -> namespaces -> the strings given
+         sit at their positions under the expanded names expat reports     -> doc_*
   rep    strings written by the independent writer under random mixes of
-         entity / decimal / hex references, CDATA and literal text, in
+         entity / decimal / hex references, CDATA and literal text, with
+         comments and processing instructions inside the text, between the
+         elements and around the root, xml:lang, in
          UTF-8 / UTF-16 / ISO-8859-1 / US-ASCII, compact or indented ->
          reply processed by suds (process_reply and __inject)             -> rep_*
   tree   random standalone trees -> Document.plain()/str() -> suds' parser
@@ -45,6 +54,7 @@ THEOREMS = [
     "refit_only_bound_prefixes", "attr_without_colon", "chunking_irrelevant",
     "plain_tokens", "pretty_tokens", "plain_end_to_end", "pretty_end_to_end",
     "plain_ns_flatten", "pretty_ns_flatten", "spec_tree_canon", "infoset_flatten", "request_end_to_end",
+    "request_position",
 ]
 
 PRE = "From SV Require Import Lib.Base Gen.C04Tables C04.Model C04.Tokens C04.NsModel."
@@ -703,7 +713,8 @@ def c_dumped(t):
         copt(None if text is None else c_text(text), "text"), clist([c_dumped(k) for k in kids], "elem"))
 
 
-def run_grouped(ck, name, case_type, cases, preds, suspects=(), group=25, shard_groups=40, compact=None):
+def run_grouped(ck, name, case_type, cases, preds, suspects=(), group=25, shard_groups=40, compact=None,
+                ishard=150):
     """ck.run_cases with the cases that are expected to pass packed `group` to
     a Coq term (the per-case nat index of run_cases dominates Coq's time
     otherwise); members of a failing pack and the `suspects` (cases whose
@@ -731,7 +742,7 @@ def run_grouped(ck, name, case_type, cases, preds, suspects=(), group=25, shard_
     res = dict((p, []) for p in preds)
     ind = sorted(redo)
     if ind:
-        r2 = ck.run_cases(name, PRE, case_type, [cases[i] for i in ind], preds, shard=150)
+        r2 = ck.run_cases(name, PRE, case_type, [cases[i] for i in ind], preds, shard=ishard)
         for p in preds:
             res[p] = sorted(ind[j] for j in r2[p])
     ru1 = resource.getrusage(resource.RUSAGE_CHILDREN)
@@ -773,8 +784,11 @@ def run(ck):
         "an empty element / absent text is read as the empty string (suds returns None for an empty xsd:string)",
         "text of elements that have child elements is compared up to surrounding whitespace (suds trims it on "
         "parsing; the property names this)",
-        "namespace declarations of standalone trees are not modelled (generated standalone trees have none; "
-        "request envelopes are compared through located slices)",
+        "requests are judged twice: through slices located by an independent tokenizer (all positions, all "
+        "strings) and, for a sample, as whole documents inside Coq (doc group: grammar of Tokens.v -> decoding -> "
+        "Namespaces in XML), with the tree taken at the `marshalled` plugin hook as the model's input",
+        "Name validity is not part of the Coq grammar (names are required to contain no delimiter); DOCTYPE is not "
+        "handled; comments and processing instructions are",
     ]
     gen_tables.generate("C04Tables")
     proof_ok = ck.prove(THEOREMS)
@@ -1150,7 +1164,8 @@ def run(ck):
         ck.sample({"group": "doc", "operation": meta[1]["operation"], "values": meta[1]["values"],
                    "document": meta[1]["document"][:1200]})
     res = run_grouped(ck, "doc", "doc_case", cases, ["doc_agrees", "doc_spec_ok"],
-                      suspects=[i for i, m in enumerate(meta) if list(m["seen"]) != list(m["values"])], group=5)
+                      suspects=[i for i, m in enumerate(meta) if list(m["seen"]) != list(m["values"])],
+                      group=5, shard_groups=3, ishard=12)
     bad_spec = set(res["doc_spec_ok"])
     for i in sorted(bad_spec):
         m = meta[i]
@@ -1307,13 +1322,15 @@ def run(ck):
                "attribute value) of a standalone Element (pretty/plain alternating); Text objects carrying the escaped "
                "flag through both serialisers; attribute values through PrefixNormalizer on trees with random prefix "
                "declarations; a "
-               "sample as arguments of a generated operation under 4 client configurations (5 positions per call) and, "
+               "sample as arguments of a document/literal, an rpc/literal and an rpc/encoded operation under 4 client "
+               "configurations (5 positions per call; located slices, and %d calls judged as whole documents in Coq) and, "
                "encoded by the independent writer under a random mix of literal/entity/decimal/hex/CDATA forms, as "
-               "reply content (5 positions per reply; replies in UTF-8, UTF-16, ISO-8859-1 or US-ASCII, compact or "
-               "indented); random standalone trees under both serialisers re-read by "
+               "reply content (5 positions per reply; comments and processing instructions inside the text, "
+               "between elements and around the root; xml:lang; replies in UTF-8, UTF-16, ISO-8859-1 or US-ASCII, "
+               "compact or indented); random standalone trees under both serialisers re-read by "
                "suds' parser and expat. distinct = distinct (group, input, position, configuration); non-trivial = "
                "contains a markup-significant or whitespace character / uses a non-literal piece / has text or children"
-               % (4 if thorough else 3, len(ALPHA), ALPHA, len(mid), len(longs)))
+               % (4 if thorough else 3, len(ALPHA), ALPHA, len(mid), len(longs), ndoc))
     ck.exhaustive = False
     ck.extra["alphabet"] = ALPHA
 
